@@ -7,7 +7,7 @@ AllKinds == {"eph.silent", "eph.missing", "eph.selfkey",
              "pts.wrong", "pts.partial", "pts.silent",
              "rev.member", "rev.self", "rev.badid", "rev.wrongkey", "rev.silent",
              "dup", "spoof", "session"}
-AllFixes == {"F1", "F2", "F3", "F4", "F5", "F6"}
+AllFixes == {"F1", "F2", "F3", "F4", "F5", "F6", "F7"}
 NoFixes == {}
 NoF1 == AllFixes \ {"F1"}
 NoF2 == AllFixes \ {"F2"}
@@ -15,6 +15,7 @@ NoF3 == AllFixes \ {"F3"}
 NoF4 == AllFixes \ {"F4"}
 NoF5 == AllFixes \ {"F5"}
 NoF6 == AllFixes \ {"F6"}
+NoF7 == AllFixes \ {"F7"}
 
 \* corrupt sets
 Corrupt3 == {{3}}
